@@ -103,6 +103,7 @@ func init() {
 			c.Server.Validator = []AuthEntry{{DB: db, User: user, PW: pw, Out: out}}
 			c.Server.DefaultAuth = r.Pick("reject", "reject", "fail")
 			var cred pgwire.FMsg
+			var credTail []pgwire.FMsg
 			su := startupMsg(user, db)
 			switch r.Intn(16) {
 			case 14, 15:
@@ -136,6 +137,11 @@ func init() {
 				cred = pgwire.FMsg{K: "p", S1: pw, DeclLen: u32p(uint32(r.PickInt(0, 1, 2, 3, 5000, 0x7fffffff, 0xffffffff)))}
 			case 9:
 				cred = pgwire.FMsg{K: r.Pick("Q", "S", "X", "H"), S1: pw}
+				if (cred.K == "S" || cred.K == "H") && r.Bool() {
+					// ... with the right password message behind it: too late
+					credTail = []pgwire.FMsg{{K: "p", S1: pw}}
+					cred.S1 = ""
+				}
 			case 10:
 				cred = pgwire.FMsg{K: "typed", T: byte(r.Pick("P", "B", "E", "z", "R")[0]), Data: append([]byte(pw), 0)}
 			case 11:
@@ -154,7 +160,7 @@ func init() {
 				// an earlier strategy option that the configured one replaced
 				c.Server.AuthFirst = "accept-all"
 			}
-			tail := genTail(r, c)
+			tail := append(credTail, genTail(r, c)...)
 			steps := []Step{{Msgs: []pgwire.FMsg{su}}}
 			if r.Bool() {
 				steps = append(steps, Step{Msgs: append([]pgwire.FMsg{cred}, tail...)})
@@ -375,6 +381,17 @@ func init() {
 			}
 			genHistory(r, c, histOpts{manyRows: true, simple: true, extended: true, copy: true, errs: true, abuse: true, unknown: true, oversized: true,
 				stray: true, decorated: true, rich: true, binary: true, params: true, typedNull: true, unknownNames: true, closes: true, multi: true, terminate: true, maxUnits: 7})
+			if r.Chance(1, 8) {
+				// a client of a newer minor protocol version with protocol options
+				// (also repeated ones): the server may answer NegotiateProtocolVersion
+				su := &c.Conns[0].Steps[0].Msgs[0]
+				su.Proto = uint32(r.PickInt(0x00030002, 0x00030001, pgwire.ProtoV3))
+				k := "_pq_." + r.Ident(3)
+				su.KV = append(su.KV, [2]string{k, "1"})
+				if r.Bool() {
+					su.KV = append(su.KV, [2]string{k, "2"}, [2]string{"_pq_." + r.Ident(2), ""})
+				}
+			}
 			if r.Chance(1, 3) {
 				kind := r.Pick("write-err", "write-err-transient", "write-err-transient", "write-slow")
 				c.Conns[0].Faults = []Fault{{Kind: kind, At: r.Range(0, 25), Bytes: r.PickInt(0, 1, 4, 5, 6, 1000)}}
